@@ -23,7 +23,8 @@ theorem source_shape_as_modelled :
     hlslGlobalEntry = ⟨true, true, true, true, true, false, true, false, false, true⟩ ∧
     mslGlobalEntry = ⟨true, true, true, true, true, false, false, true, false, true⟩ ∧
     hlslCbufferDescType = some .ConstantBuffer ∧ mslRejectsCbufferRoot = true ∧
-    hlslNameIsGeneratedName = true ∧
+    hlslNameIsGeneratedName = true ∧ mslNameIsGeneratedName = true ∧ hlslReportsEmittedName = true ∧
+    mslRejectsGroupWithoutArgumentBuffer = true ∧ usageFacts = ⟨true, true, true, true⟩ ∧
     mslPipelineFacts = ⟨true, true, true, true, true, true, true⟩ ∧
     hlslAnnotFacts = ⟨true, true, true, true, true, true, true, true, true, true, true, true, true, true, true,
                       true, true, true, true⟩ ∧
@@ -171,31 +172,37 @@ theorem annot_matches_meta_hlsl {p : Params} {d : MDecl} {ob : Option Binding} {
                 · cases ha
           · simp at ha
 
-/-- Metal: the `[[id(n)]]` member printed for a declaration names the group and slot of its entry
-    (for the bind groups that have an argument buffer struct). -/
+/-- Metal: the `[[id(n)]]` member printed for a declaration names the group and slot of its entry; the
+    group always has an argument buffer struct (`analyse_bindings` refuses the others). -/
 theorem annot_matches_meta_msl {u : Bool} {d : MDecl} {ob : Option Binding} {a : Annot} {g : Nat} {e : Entry}
-    (ha : mslAnnot d ob = .ok (some a)) (he : mslEvent u d ob = .ok (some (g, e)))
-    (hg : g < argumentBufferNames.length) :
-    readAnnot a.print = some a ∧ (Annot.read a).1 = g ∧ (Annot.read a).2.1 = e.loc := by
+    (ha : mslAnnot d ob = .ok (some a)) (he : mslEvent u d ob = .ok (some (g, e))) :
+    readAnnot a.print = some a ∧ (Annot.read a).1 = g ∧ (Annot.read a).2.1 = e.loc ∧
+    g < argumentBufferNames.length := by
   cases ob with
   | none => cases d <;> simp [mslAnnot] at ha
   | some b =>
-    have hge : g = b.set ∧ e.loc = b.loc := by
+    have hge : g = b.set ∧ e.loc = b.loc ∧ b.set < argumentBufferNames.length := by
       cases d with
       | other => simp [mslEvent] at he
       | cbuffer n s =>
         simp only [mslEvent] at he
         split at he
         · cases he
-        · simp only [Except.ok.injEq, Option.some.injEq, Prod.mk.injEq] at he
-          obtain ⟨rfl, rfl⟩ := he; exact ⟨rfl, rfl⟩
+        · split at he
+          · cases he
+          · rename_i hlt
+            simp only [Except.ok.injEq, Option.some.injEq, Prod.mk.injEq] at he
+            obtain ⟨rfl, rfl⟩ := he; exact ⟨rfl, rfl, by omega⟩
       | global n s ss k arr bl st =>
         simp only [mslEvent] at he
         split at he
         · cases he
-        · simp only [Except.ok.injEq, Option.some.injEq, Prod.mk.injEq] at he
-          obtain ⟨rfl, rfl⟩ := he; exact ⟨rfl, rfl⟩
-    obtain ⟨rfl, hloc⟩ := hge
+        · split at he
+          · cases he
+          · rename_i hlt
+            simp only [Except.ok.injEq, Option.some.injEq, Prod.mk.injEq] at he
+            obtain ⟨rfl, rfl⟩ := he; exact ⟨rfl, rfl, by omega⟩
+    obtain ⟨rfl, hloc, hg⟩ := hge
     have hab : ∃ i, b.loc = .index i ∧ a = .id i b.set := by
       cases d with
       | other => simp [mslAnnot] at ha
@@ -210,19 +217,29 @@ theorem annot_matches_meta_msl {u : Bool} {d : MDecl} {ob : Option Binding} {a :
         · rename_i i hl; simp only [Except.ok.injEq, Option.some.injEq] at ha; exact ⟨i, hl, ha.symm⟩
         · cases ha
     obtain ⟨i, hl, rfl⟩ := hab
-    refine ⟨readAnnot_print _ ?_, rfl, ?_⟩
+    refine ⟨readAnnot_print _ ?_, rfl, ?_, hg⟩
     · intro i' s' h; cases h; exact hg
     · simp [Annot.read, hloc, hl]
 
-/-- The general statement "every registered entry has an annotation" is false on the current code:
-    a `static` global of resource type receives an api slot and a metadata entry but no annotation. -/
-theorem static_object_entry_without_annotation :
-    ∃ (d : MDecl) (ob : Option Binding) (g : Nat) (e : Entry),
-      hlslEvent d ob = .ok (some (g, e)) ∧ hlslAnnot (paramsFor .HlslForDirectX false) d ob = .ok none ∧
-      (assign (paramsFor .HlslForDirectX false) 0 [d.toSlot]).toOption.map (·.bindings) = some [ob] :=
-  ⟨.global "g_st" none false (some .Texture2D) .no false .static,
-   some { set := 0, loc := .index 0, slotType := some .T }, 0, _, rfl, rfl, by decide⟩
-
+/-- Since fix "do not allocate binding slots for static or groupshared globals" a non-extern global is
+    never externally bound, whatever its type: the allocator leaves it alone, so it has neither api slot,
+    nor metadata entry, nor annotation (the former witness `static_object_entry_without_annotation` is no
+    longer derivable). -/
+theorem non_extern_global_unbound (p : Params) (dflt : Nat) (n : String) (s : Option Nat) (ss bl : Bool)
+    (k : Option ObjKind) (arr : Arr) (st : Storage) (hst : st ≠ .extern) :
+    externallyBound p (.global n s ss k arr bl st) = false ∧
+    (assign p dflt [(MDecl.global n s ss k arr bl st).toSlot]).toOption.map (·.bindings) = some [none] ∧
+    hlslEvent (.global n s ss k arr bl st) none = (descOf hlslDescType hlslNonObjectDescType k).map (fun _ => none) ∧
+    hlslAnnot p (.global n s ss k arr bl st) none = .ok none := by
+  have hts : (MDecl.global n s ss k arr bl st).toSlot = .global s ss none none := by
+    simp [MDecl.toSlot, hst]
+  refine ⟨by simp [externallyBound, hts, RsslVerif.Spec.Slots.bound], ?_, ?_, ?_⟩
+  · rw [hts]
+    cases h : (ss && !p.staticSamplersHaveSlots) <;> simp [assign, run, step, h, Except.toOption]
+  · simp only [hlslEvent]
+    cases descOf hlslDescType hlslNonObjectDescType k <;> rfl
+  · have hne : (st == Storage.extern) = false := by cases st <;> simp_all
+    simp [hlslAnnot, storageAfter, hne]
 
 /-! ## the whole module: annotations and entries line up, and the printers cannot panic -/
 
@@ -238,10 +255,10 @@ theorem hlsl_annotations_total {p : Params} (hp : HlslParams p) {dflt : Nat} {ds
     ∃ r, annots (hlslAnnot p) ds res.bindings = .ok r :=
   annots_total hp ds res.bindings (assign_good h)
 
-/-- a declaration is annotated iff it is registered, unless it is a non-extern global (see
-    `static_object_entry_without_annotation`) -/
+/-- a declaration is annotated iff it is registered (a non-extern global has no api slot, see
+    `non_extern_global_unbound`) -/
 theorem annot_iff_entry {p : Params} {d : MDecl} {ob : Option Binding} {oa : Option Annot} {oe : Option (Nat × Entry)}
-    (hext : ∀ n s ss k arr bl st, d = .global n s ss k arr bl st → st = .extern)
+    (hext : ∀ n s ss k arr bl st, d = .global n s ss k arr bl st → st = .extern ∨ ob = none)
     (ha : hlslAnnot p d ob = .ok oa) (he : hlslEvent d ob = .ok oe) : oa.isSome = oe.isSome := by
   have hreg : ∀ b o, regAnnot (some b) = .ok o → o.isSome = true := by
     intro b o h
@@ -270,7 +287,18 @@ theorem annot_iff_entry {p : Params} {d : MDecl} {ob : Option Binding} {oa : Opt
       · simp [hvk b oa ha]
       · simp [hreg b oa ha]
   | global n s ss k arr bl st =>
-    have hst := hext n s ss k arr bl st rfl
+    rcases hext n s ss k arr bl st rfl with hst | hob
+    case inr =>
+      subst hob
+      simp only [hlslEvent] at he
+      split at he
+      · cases he
+      · simp at he; subst he
+        simp only [hlslAnnot, storageAfter] at ha
+        by_cases hse : (st == Storage.extern) = true
+        · simp only [hse, if_true] at ha
+          by_cases hv : requiresVk p = true <;> (simp [hv, vkAnnot, regAnnot] at ha; subst ha; rfl)
+        · simp only [hse] at ha; simp at ha; subst ha; rfl
     subst hst
     have hee : (Storage.extern == Storage.extern) = true := by decide
     simp only [hlslEvent] at he
@@ -292,13 +320,14 @@ theorem annot_iff_entry {p : Params} {d : MDecl} {ob : Option Binding} {oa : Opt
           · simp only [hv, if_true] at ha; simp [hvk _ oa ha]
           · simp only [hv] at ha; simp [hreg _ oa ha]
 
-/-- Module level `annot_matches_meta` + "exactly one": for a module without non-extern object globals,
+/-- Module level `annot_matches_meta` + "exactly one": on api slots that agree with the allocator's
+    specification (C06 `binding_complete` gives this for `assign`'s output), for every module,
     the list of printed annotations and the list of registered entries have the same length and line up
     one to one, in order, on (name, bind group, slot | inline offset); and every printed annotation reads
     back as itself. -/
-theorem annotations_match_metadata_hlsl {p : Params} :
+theorem annotations_match_metadata_hlsl {p : Params} {dflt : Nat} :
     ∀ (ds : List MDecl) (bs : List (Option Binding)) (i : Nat) (as : List (String × Annot)) (evs : List (Nat × Entry)),
-      (∀ d ∈ ds, ∀ n s ss k arr bl st, d = .global n s ss k arr bl st → st = .extern) →
+      RsslVerif.Thm.C06.Agrees p dflt (ds.map MDecl.toSlot) bs →
       annots (hlslAnnot p) ds bs = .ok as → events (fun _ => hlslEvent) i ds bs = .ok evs →
       as.map (fun x => (x.1, (Annot.read x.2).1, (Annot.read x.2).2.1)) = evs.map (fun x => (x.2.name, x.1, x.2.loc)) ∧
       ∀ x ∈ as, readAnnot x.2.print = some x.2 := by
@@ -312,6 +341,19 @@ theorem annotations_match_metadata_hlsl {p : Params} :
     cases bs with
     | nil => simp [annots] at ha; simp [events] at he; subst ha; subst he; simp
     | cons ob bs =>
+      simp only [List.map_cons, RsslVerif.Thm.C06.Agrees] at hext
+      obtain ⟨hhead, htail⟩ := hext
+      have hextd : ∀ n s ss k arr bl st, d = .global n s ss k arr bl st → st = .extern ∨ ob = none := by
+        intro n s ss k arr bl st hd
+        by_cases hst : st = .extern
+        · exact Or.inl hst
+        · right
+          cases ob with
+          | none => rfl
+          | some b =>
+            subst hd
+            have hb : RsslVerif.Spec.Slots.bound p (MDecl.global n s ss k arr bl st).toSlot = true := hhead.1
+            simp [MDecl.toSlot, hst, RsslVerif.Spec.Slots.bound] at hb
       unfold annots at ha
       unfold events at he
       split at ha
@@ -327,8 +369,8 @@ theorem annotations_match_metadata_hlsl {p : Params} :
             · cases he
             · rename_i re hre
               simp only [Except.ok.injEq] at ha he
-              have hrest := ih bs (i + 1) ra re (fun d' hd' => hext d' (by simp [hd'])) hra hre
-              have hiff := annot_iff_entry (hext d (by simp)) hoa hoe
+              have hrest := ih bs (i + 1) ra re htail hra hre
+              have hiff := annot_iff_entry hextd hoa hoe
               cases oa with
               | none =>
                 cases oe with
@@ -396,9 +438,12 @@ theorem descriptor_kind_count {k : Option ObjKind} {arr : Arr}
     | error e => simp [hd] at h1
     | ok dt =>
       simp only [hd, Except.ok.injEq, Option.some.injEq, Prod.mk.injEq] at h1 h2
-      obtain ⟨_, rfl⟩ := h1
-      obtain ⟨_, rfl⟩ := h2
-      exact ⟨rfl, rfl, rfl⟩
+      split at h1
+      · cases h1
+      · simp only [Except.ok.injEq, Option.some.injEq, Prod.mk.injEq] at h1
+        obtain ⟨_, rfl⟩ := h1
+        obtain ⟨_, rfl⟩ := h2
+        exact ⟨rfl, rfl, rfl⟩
 
 
 /-! ## meta_bijective -/
@@ -486,35 +531,40 @@ theorem meta_bijective_msl_exact {p : Params} (hsba : p.supportBufferAddress = f
 theorem msl_sort_keeps_sorted (ks : List (Nat × Entry)) (h : ks.Pairwise (fun a b => a.1 ≤ b.1)) :
     sortKeyed ks = ks := sortKeyed_sorted ks h
 
-/-- who is excluded on both sides: non-definitions, non-object globals, unsized arrays (the allocator
-    does not look through them), and static samplers on Metal (implemented in source there). -/
+/-- who is excluded on both sides: non-definitions, non-object globals, non-extern globals, unsized arrays
+    (the allocator does not look through them), and static samplers on Metal (implemented in source there). -/
 theorem excluded_declarations (p : Params) (n : String) (s : Option Nat) (ss bl : Bool) (k : Option ObjKind)
     (arr : Arr) (st : Storage) :
     externallyBound p .other = false ∧
     externallyBound p (.global n s ss none arr bl st) = false ∧
     externallyBound p (.global n s ss k .unsized bl st) = false ∧
     externallyBound (paramsFor .Msl false) (.global n s true k arr bl st) = false ∧
+    (st ≠ .extern → externallyBound p (.global n s ss k arr bl st) = false) ∧
     externallyBound p (.cbuffer n s) = true := by
-  refine ⟨rfl, ?_, ?_, ?_, rfl⟩
-  · cases arr <;> simp [externallyBound, MDecl.toSlot, RsslVerif.Spec.Slots.bound]
-  · simp [externallyBound, MDecl.toSlot, RsslVerif.Spec.Slots.bound]
-  · cases arr <;> cases k <;> simp [externallyBound, MDecl.toSlot, RsslVerif.Spec.Slots.bound, paramsFor]
+  refine ⟨rfl, ?_, ?_, ?_, ?_, rfl⟩
+  · cases arr <;> cases st <;> simp [externallyBound, MDecl.toSlot, RsslVerif.Spec.Slots.bound]
+  · cases st <;> simp [externallyBound, MDecl.toSlot, RsslVerif.Spec.Slots.bound]
+  · cases arr <;> cases k <;> cases st <;>
+      simp [externallyBound, MDecl.toSlot, RsslVerif.Spec.Slots.bound, paramsFor]
+  · intro hst
+    simp [externallyBound, MDecl.toSlot, hst, RsslVerif.Spec.Slots.bound]
 
 /-! ## used_sound_complete -/
 
 open RsslVerif.Model.MetaReach RsslVerif.Lemmas.MetaReach in
 /-- Metal: when the usage fixed point loop terminates (fuel not exhausted), a binding is marked used iff
-    some stage entry point reaches the global through the call graph.  `_partial`: termination of the loop
-    itself (fuel sufficiency) is not proved here; every other step is. -/
-theorem used_sound_complete_partial {direct : Nat → List Sym} {keys entries : List Nat} {fuel : Nat}
-    {req : Nat → List Sym} (hk : ∀ f ∈ keys, ∀ h, Sym.fn h ∈ direct f → h ∈ keys)
-    (he : ∀ e ∈ entries, e ∈ keys) (h : recurse fuel keys direct = some req) (g : Nat) :
-    usedBy req entries g = true ↔ ∃ e ∈ entries, Reach direct e (.glob g) := by
+    some stage entry point reaches the global in the use graph (calls, bodies, default arguments, and the
+    initialisers of the globals on the way).  `_partial`: termination of the loop itself (fuel sufficiency)
+    is not proved here; every other step is. -/
+theorem used_sound_complete_partial {direct : Sym → List Sym} {keys : List Sym} {entries : List Nat} {fuel : Nat}
+    {req : Sym → List Sym} (hk : ∀ k ∈ keys, ∀ s ∈ direct k, s ∈ keys)
+    (he : ∀ e ∈ entries, Sym.fn e ∈ keys) (h : recurse fuel keys direct = some req) (g : Nat) :
+    usedBy req entries g = true ↔ ∃ e ∈ entries, Reach direct (.fn e) (.glob g) := by
   have hr := recurse_is_reach hk h
   simp only [usedBy, List.any_eq_true, List.contains_iff_mem]
   constructor
-  · rintro ⟨e, hem, hm⟩; exact ⟨e, hem, (hr e (he e hem) _).1 hm⟩
-  · rintro ⟨e, hem, hm⟩; exact ⟨e, hem, (hr e (he e hem) _).2 hm⟩
+  · rintro ⟨e, hem, hm⟩; exact ⟨e, hem, (hr _ (he e hem) _).1 hm⟩
+  · rintro ⟨e, hem, hm⟩; exact ⟨e, hem, (hr _ (he e hem) _).2 hm⟩
 
 /-- the `is_used` flag of an entry: always true on HLSL (so a reachable binding is never reported unused),
     the membership test on Metal -/
@@ -541,24 +591,29 @@ theorem used_flag {u : Bool} {d : MDecl} {ob : Option Binding} {g : Nat} {e : En
         simp only [mslEvent] at h
         split at h
         · cases h
-        · simp at h; obtain ⟨_, rfl⟩ := h; rfl
+        · split at h
+          · cases h
+          · simp at h; obtain ⟨_, rfl⟩ := h; rfl
     | global n s ss k arr bl st =>
       simp only [mslEvent] at h
       split at h
       · cases h
-      · cases ob <;> simp at h; obtain ⟨_, rfl⟩ := h; rfl
+      · cases ob with
+        | none => simp at h
+        | some b =>
+          simp only at h
+          split at h
+          · cases h
+          · simp at h; obtain ⟨_, rfl⟩ := h; rfl
 
 /-! ## entry_named_and_defined -/
 
-/-- the name generator kept the entry function's source name -/
-def NameKept (funcs : List FuncDef) (s : StageDef) : Prop :=
-  ∀ f, funcs[s.entry]? = some f → f.emitted = f.name
-
 /-- Each reported stage names the function the emitted source defines for it, with the reported thread
-    group size: on Metal unconditionally (the two name tables agree), on HLSL when the name generator
-    kept the entry function's name. -/
+    group size — on every target, whatever the name generator did to the entry function's name: HLSL reports
+    the exporter's generated name (since fix "report the emitted name of HLSL entry points"), Metal the fixed
+    name of its generated entry function (the two name tables agree). -/
 theorem entry_named_and_defined (msl : Bool) (funcs : List FuncDef) (s : StageDef) (r : StageOut)
-    (hk : msl = false → NameKept funcs s) (h : reportStage msl funcs s = some r) :
+    (h : reportStage msl funcs s = some r) :
     emittedStage msl funcs s = some (r.entryPoint, r.threadGroupSize) ∧ r.stage = s.stage := by
   unfold reportStage at h
   unfold emittedStage
@@ -569,15 +624,11 @@ theorem entry_named_and_defined (msl : Bool) (funcs : List FuncDef) (s : StageDe
     subst h
     cases msl with
     | true => simp [msl_entry_names_agree]
-    | false => simp [hk rfl f hf]
+    | false => simp
 
-/-- Without `NameKept` the statement is false: the model's reported name is the source name whatever the
-    exporter printed (witness: the pinned tree prints `float16_t_0` for an entry called `float16_t`). -/
-theorem entry_named_and_defined_needs_name_kept :
-    ∃ (funcs : List FuncDef) (s : StageDef) (r : StageOut),
-      reportStage false funcs s = some r ∧ emittedStage false funcs s ≠ some (r.entryPoint, r.threadGroupSize) :=
-  ⟨[{ name := "float16_t", emitted := "float16_t_0", numthreads := some (8, 4, 1) }],
-   { stage := .Compute, entry := 0 }, _, rfl, by decide⟩
+/-- the renamed entry point of the former defect: reported and emitted names are both `float16_t_0` -/
+example : reportStage false [{ name := "float16_t", emitted := "float16_t_0", numthreads := some (8, 4, 1) }]
+      { stage := .Compute, entry := 0 } = some ⟨.Compute, "float16_t_0", some (8, 4, 1)⟩ := rfl
 
 /-! Non-vacuity of the hypotheses above. -/
 example : hlslAnnot (paramsFor .HlslForVulkan true) (.global "g" (some 1) false (some .Texture2D) (.sized 3) false .extern)
@@ -610,7 +661,9 @@ example : ((mslMeta (paramsFor .Msl false) 0 (fun i => i == 2) exampleDecls).toO
 example : boundNames (paramsFor .Msl false) 0 0 exampleDecls = ["g_cb", "g_ba", "g_bab"] := by decide
 
 open RsslVerif.Model.MetaReach in
-example : ((recurse 5 [0, 1, 2] (fun f => if f = 0 then [.fn 1] else if f = 1 then [.glob 7, .fn 2] else if f = 2 then [.glob 9] else [])).map
-      fun req => (usedBy req [0] 9, usedBy req [2] 7)) = some (true, false) := by decide
+example : ((recurse 6 [.fn 0, .fn 1, .fn 2, .glob 7, .glob 9, .glob 3]
+      (fun k => if k = .fn 0 then [.fn 1] else if k = .fn 1 then [.glob 7, .fn 2] else if k = .fn 2 then [.glob 9]
+                else if k = .glob 9 then [.glob 3] else [])).map
+      fun req => (usedBy req [0] 9, usedBy req [0] 3, usedBy req [2] 7)) = some (true, true, false) := by decide
 
 end RsslVerif.Thm.C05
